@@ -218,6 +218,72 @@ func c13RunSeq(ops []agentOp) (r *agentRun, key, detail string) {
 	return
 }
 
+// c13Many registers n transactions, k of them with a deadline strictly before the collect time, and checks
+// that one Collect times out exactly those k and Close closes exactly the rest.
+func c13Many(n, k int) (key, detail string) {
+	p := catch(func() {
+		timeouts := map[[12]byte]int{}
+		closed := map[[12]byte]int{}
+		other := 0
+		a := stun.NewAgent(func(e stun.Event) {
+			switch {
+			case errors.Is(e.Error, stun.ErrTransactionTimeOut):
+				timeouts[e.TransactionID]++
+			case errors.Is(e.Error, stun.ErrAgentClosed):
+				closed[e.TransactionID]++
+			default:
+				other++
+			}
+		})
+		id := func(i int) (t [12]byte) { t[0], t[1], t[11] = byte(i), byte(i>>8), 0x5a; return }
+		for i := 0; i < n; i++ {
+			d := agentTime(3) // not before the collect time (== is not before)
+			if i < k {
+				d = agentTime(2)
+			}
+			if err := a.Start(id(i), d); err != nil {
+				key, detail = "many/start", fmt.Sprintf("Start #%d of %d: %v", i, n, err)
+				return
+			}
+		}
+		if err := a.Collect(agentTime(3)); err != nil {
+			key, detail = "many/collect-return", err.Error()
+			return
+		}
+		for i := 0; i < n; i++ {
+			want := 0
+			if i < k {
+				want = 1
+			}
+			if timeouts[id(i)] != want {
+				key, detail = "many/collect-events", fmt.Sprintf("%d transactions, %d with a deadline before t: Collect(t) emitted %d timeout events in total; transaction %d got %d, want %d", n, k, len(timeouts), i, timeouts[id(i)], want)
+				return
+			}
+		}
+		if err := a.Close(); err != nil {
+			key, detail = "many/close-return", err.Error()
+			return
+		}
+		for i := 0; i < n; i++ {
+			want := 1
+			if i < k {
+				want = 0
+			}
+			if closed[id(i)] != want {
+				key, detail = "many/close-events", fmt.Sprintf("%d transactions, %d timed out: Close emitted %d closed events for transaction %d, want %d", n, k, closed[id(i)], i, want)
+				return
+			}
+		}
+		if other != 0 {
+			key, detail = "many/other-events", fmt.Sprintf("%d unexpected events", other)
+		}
+	})
+	if p != "" {
+		return "panic", p
+	}
+	return
+}
+
 func init() {
 	registry["C13"] = propImpl{
 		Run: func(c *Ctx) {
@@ -300,6 +366,25 @@ func init() {
 				}
 			}
 			rec(0)
+			// 3. many ids at one Collect: n = 0..300 transactions, all / half / none of them expired
+			for n := 0; n <= 300; n++ {
+				if !c.Mine(int64(n)) {
+					continue
+				}
+				for _, k := range []int{n, n / 2, 0, 1} {
+					if k > n {
+						continue
+					}
+					c.Eval(1)
+					c.DistinctByConstruction++
+					c.Res.Traces++
+					if key, d := c13Many(n, k); key != "" {
+						c.Violation(key, d, map[string]int{"many_n": n, "many_k": k})
+					} else {
+						c.Outcome("many-ids")
+					}
+				}
+			}
 			c.Extra("enumeration_depth", float64(depth))
 			c.Extra("alphabet_size", float64(len(alpha)))
 			if len(c.Res.Samples) == 0 {
@@ -307,6 +392,16 @@ func init() {
 			}
 		},
 		Replay: func(c *Ctx, p json.RawMessage) {
+			var many struct {
+				N *int `json:"many_n"`
+				K int  `json:"many_k"`
+			}
+			if json.Unmarshal(p, &many) == nil && many.N != nil {
+				if key, d := c13Many(*many.N, many.K); key != "" {
+					c.Violation(key, d, map[string]int{"many_n": *many.N, "many_k": many.K})
+				}
+				return
+			}
 			var ops []agentOp
 			if err := json.Unmarshal(p, &ops); err != nil {
 				c.Fail("%v", err)
